@@ -236,46 +236,30 @@ pub fn e2e_tsvmin_vec_deq<const N: usize>() {
     kani::cover!(val && w < N, "a non-null minimum with a window shorter than the series");
 }
 
-fn any_lag<const N: usize>() -> i32 {
-    let n: i32 = kani::any();
-    kani::assume(n >= -(N as i32) - 1 && n <= N as i32 + 1);
-    n
+/// `titer().vshift(n, None)` for every concrete lag n in -N-1..=N+1 (a symbolic lag makes the `skip` / `take`
+/// pointer arithmetic of the VecDeque and ndarray iterators symbolic, which CBMC does not finish).
+macro_rules! e2e_vshift {
+    ($name:ident, $mk:expr, $msg:literal) => {
+        pub fn $name<const N: usize>() {
+            let x: [Option<i32>; N] = kani::any();
+            let v: Vec<Option<i32>> = x.to_vec();
+            let mut n = -(N as i32) - 1;
+            while n <= N as i32 + 1 {
+                let a: Vec<Option<i32>> = v.titer().vshift(n, None).collect_trusted_to_vec();
+                let b: Vec<Option<i32>> = $mk(&x).titer().vshift(n, None).collect_trusted_to_vec();
+                assert!(a.len() == N && b.len() == N, "both shifted results have the input length");
+                let mut i = 0;
+                while i < N {
+                    assert!(a[i] == b[i], $msg);
+                    i += 1;
+                }
+                n += 1;
+            }
+        }
+    };
 }
-
-pub fn e2e_vshift_vec_deq<const N: usize>() {
-    let x: [Option<i32>; N] = kani::any();
-    let n = any_lag::<N>();
-    let v: Vec<Option<i32>> = x.to_vec();
-    let d = deque_rot(&x[..], 1);
-    let a: Vec<Option<i32>> = v.titer().vshift(n, None).collect_trusted_to_vec();
-    let c: Vec<Option<i32>> = d.titer().vshift(n, None).collect_trusted_to_vec();
-    assert!(a.len() == N && c.len() == N, "both shifted results have the input length");
-    let mut i = 0;
-    while i < N {
-        assert!(a[i] == c[i], "vshift identical for Vec and wrapped VecDeque");
-        i += 1;
-    }
-    kani::cover!(n > 0 && (n as usize) < N, "forward shift inside the series");
-    kani::cover!(n < 0 && ((-n) as usize) < N, "backward shift inside the series");
-}
-
-pub fn e2e_vshift_vec_nd2<const N: usize>() {
-    let x: [Option<i32>; N] = kani::any();
-    let n = any_lag::<N>();
-    let v: Vec<Option<i32>> = x.to_vec();
-    let st = nd_step_storage(&x[..], 2);
-    let r = st.slice(s![..;2]);
-    let a: Vec<Option<i32>> = v.titer().vshift(n, None).collect_trusted_to_vec();
-    let b: Vec<Option<i32>> = r.titer().vshift(n, None).collect_trusted_to_vec();
-    assert!(a.len() == N && b.len() == N, "both shifted results have the input length");
-    let mut i = 0;
-    while i < N {
-        assert!(a[i] == b[i], "vshift identical for Vec and strided ndarray view");
-        i += 1;
-    }
-    kani::cover!(n > 0 && (n as usize) < N, "forward shift inside the series");
-    kani::cover!(n < 0 && ((-n) as usize) < N, "backward shift inside the series");
-}
+e2e_vshift!(e2e_vshift_vec_deq, |x: &[Option<i32>; N]| deque_rot(&x[..], 1), "vshift identical for Vec and wrapped VecDeque");
+e2e_vshift!(e2e_vshift_vec_nd, |x: &[Option<i32>; N]| nd_owned(&x[..]), "vshift identical for Vec and Array1");
 
 pub fn e2e_agg<const N: usize>() {
     let x = any_opt_small::<N>();
@@ -283,17 +267,27 @@ pub fn e2e_agg<const N: usize>() {
     let d = deque_rot(&x[..], 1);
     let st = nd_rev_storage(&x[..]);
     let r = st.slice(s![..;-1]);
-    let st2 = nd_step_storage(&x[..], 2);
-    let r2 = st2.slice(s![..;2]);
-    let arc = Arc::new(x.to_vec());
     let (s0, m0) = (v.titer().vsum(), v.titer().vmax());
     assert!(x.titer().vsum() == s0 && x.titer().vmax() == m0, "vsum/vmax identical for [T; N]");
     assert!(d.titer().vsum() == s0 && d.titer().vmax() == m0, "vsum/vmax identical for a wrapped VecDeque");
     assert!(r.titer().vsum() == s0 && r.titer().vmax() == m0, "vsum/vmax identical for a reversed ndarray view");
-    assert!(r2.titer().vsum() == s0 && r2.titer().vmax() == m0, "vsum/vmax identical for a strided ndarray view");
-    assert!(arc.titer().vsum() == s0 && arc.titer().vmax() == m0, "vsum/vmax identical for Arc<Vec>");
     kani::cover!(s0.is_some() && m0 != s0, "a sum over several valid elements");
     kani::cover!(s0.is_none(), "all null");
+}
+
+/// the remaining containers (thorough tier)
+pub fn e2e_agg2<const N: usize>() {
+    let x = any_opt_small::<N>();
+    let v: Vec<Option<i32>> = x.to_vec();
+    let st2 = nd_step_storage(&x[..], 2);
+    let r2 = st2.slice(s![..;2]);
+    let arc = Arc::new(x.to_vec());
+    let nd = nd_owned(&x[..]);
+    let (s0, m0) = (v.titer().vsum(), v.titer().vmax());
+    assert!(r2.titer().vsum() == s0 && r2.titer().vmax() == m0, "vsum/vmax identical for a strided ndarray view");
+    assert!(arc.titer().vsum() == s0 && arc.titer().vmax() == m0, "vsum/vmax identical for Arc<Vec>");
+    assert!(nd.titer().vsum() == s0 && nd.titer().vmax() == m0, "vsum/vmax identical for Array1");
+    kani::cover!(s0.is_some() && m0 != s0, "a sum over several valid elements");
 }
 
 /// `ts_vsum` returned in output container O and written into an uninitialised O buffer: both equal the returned
